@@ -3,6 +3,29 @@ import json, os
 HERE = os.path.dirname(os.path.dirname(os.path.abspath(__file__)))
 
 CHECKS = {
+    "C01": dict(
+        category="exploration",
+        text="Generated plugin graphs (8 plugin kinds) x independent chunkings x processor/worker/lazy/capacity "
+             "configurations x stored subsets x controlled thread schedules, compared bit-for-bit with a pure "
+             "whole-run reference evaluator; yielded chunks must tile the run; everything stored is re-read and "
+             "compared. Exploration (sampling) is the honest level for a product space this large.",
+        design_ref="DESIGN.md §5 C01, §2 G-graph, §3",
+        note="Trusts the reference evaluator vf/graphs.py:evaluate and that the grammar's computations are "
+             "chunking-invariant by definition; threads are pre-empted at synchronisation points only; numba "
+             "helpers run un-jitted (same source); process pools not exercised.",
+        technique="property-based testing (Hypothesis) with reference model + controlled-scheduler schedule fuzzing",
+    ),
+    "C05": dict(
+        category="exploration",
+        text="Mailbox-only harness under a cooperative scheduler that owns every interleaving: random/PCT/targeted "
+             "schedules over generated configurations plus stateless DFS of all schedules up to a preemption bound "
+             "for small configurations; oracle = exact delivered sequences, termination, no deadlock / virtual "
+             "timeout, capacity invariant inspected at every scheduler step.",
+        design_ref="DESIGN.md §5 C05, §3",
+        note="Pre-emption at synchronisation operations only (sound for the mailbox: all state under one lock); "
+             "DFS exhaustive only up to the stated preemption bound / schedule cap; virtual time.",
+        technique="schedule fuzzing + bounded-exhaustive schedule enumeration (controlled scheduler) with history oracle",
+    ),
     "C07": dict(
         category="exploration",
         text="Generated + small-scope exhaustive search of Chunk.split / concatenate / merge / Rechunker against "
